@@ -206,6 +206,45 @@ LINK_RULE = ("TLC explores the writer state machine call by call (documents grow
              "(random documents, every prefix, random strings over a wide alphabet, every sink fault position per document) "
              "are judged by Trace_LinkFormat. A case is one emitted document/string or one recorded run.")
 
+# ------------------------------------------------------------------------------ C07 / C19 convenience layer
+def c07(ctx):
+    dev, rel = ctx.build("dev"), ctx.build("release")
+    out = ctx.path("exchange.nd")
+    ctx.model_check("MC_Exchange", env={"OUT": out}, workers=8, timeout=900)
+    for b in (dev, rel):
+        ctx.replay(b, "exchange", out, {"C07"}, label="exchange-" + os.path.basename(b))
+    rm(out)
+    for b in (dev, rel):
+        tr, info = ctx.record(b, "response", name="response-" + os.path.basename(b))
+        ctx.extra["swept_native_not_validated"] = ctx.extra.get("swept_native_not_validated", 0) + int(info.get("swept_native", 0))
+        ctx.extra["forwarded_to_tlc"] = ctx.extra.get("forwarded_to_tlc", 0) + int(info.get("forwarded", 0))
+        ctx.validate("Trace_Views", tr, {"C07"}, label="response-" + os.path.basename(b))
+        rm(tr)
+
+
+def c19(ctx):
+    dev, rel = ctx.build("dev"), ctx.build("release")
+    modes = [("pairs", 4 if ctx.thorough else 3), ("triples", 0)]
+    for mode, plen in modes:
+        out = ctx.path("views_%s.nd" % mode)
+        ctx.model_check("MC_Views", env={"MODE": mode, "PLEN": plen, "OUT": out}, workers=8, timeout=900)
+        for b in (dev, rel):
+            ctx.replay(b, "views", out, {"C19"}, label="views-%s-%s" % (mode, os.path.basename(b)))
+        rm(out)
+    for b in (dev, rel):
+        tr, _ = ctx.record(b, "views", name="views-" + os.path.basename(b))
+        ctx.validate("Trace_Views", tr, {"C19"}, label="views-" + os.path.basename(b))
+        rm(tr)
+
+
+VIEWS_RULE = ("TLC explores sequences of convenience setters and raw option calls (every named method, status, content format and "
+              "observe action, every path over the token alphabet) and, for C07, request/serve interleavings of two clients; the "
+              "set-then-get, raw-agreement and correlation properties are checked on every transition; every emitted transition is "
+              "replayed into CoapRequest / CoapResponse / Packet comparing all getters, raw state, encoded bytes and both "
+              "coap-message trait versions; recorded getter results (all 256 codes, raw option bytes), setter effects on random "
+              "prior states, generic copies, prepared replies and applied errors are judged by Trace_Views. A case is one emitted "
+              "transition or one recorded event.")
+
 TABLE_RULE = ("TLC evaluates the specification operator over the whole finite domain (one state per table key), checks the "
               "round-trip / well-formedness theorems in every state and emits the complete expected table; every row is "
               "compared with the real code in dev and release builds. A case is one table row; rows are distinct by key.")
@@ -223,6 +262,8 @@ CHECKS = {
     "C04": (c04, {"rule": CODEC_RULE}),
     "C05": (c05, {"rule": TABLE_RULE}),
     "C06": (c06, {"rule": TABLE_RULE + " Typed getters/setters on a message are additionally recorded after random typed builder calls and validated by Trace_Wire element by element."}),
+    "C07": (c07, {"rule": VIEWS_RULE}),
+    "C19": (c19, {"rule": VIEWS_RULE}),
     "C13": (c13, {"rule": TABLE_RULE}),
     "C16": (c16, {"rule": LINK_RULE}),
     "C17": (c17, {"rule": LINK_RULE}),
